@@ -4,7 +4,7 @@
 # On success copies it to /verif/seeded/<prop>-<n>/ (patch.diff, demo.rs, note.md).
 set -u
 P=$1; N=$2; RUNS=${3:-2}
-WT=/tmp/seed-$P
+WT=${4:-/tmp/seed-$P}; OUT=${5:-$P-$N}
 cd $WT || exit 2
 export CARGO_NET_OFFLINE=true
 git checkout -q -- . ; rm -f tests/demo_seed.rs
@@ -20,13 +20,14 @@ for i in $(seq $RUNS); do
 done
 rm -f tests/demo_seed.rs; rmdir tests 2>/dev/null
 suite_ok=1
-cargo test --workspace --no-fail-fast --offline >/tmp/seedlog-$P-$N-suite.txt 2>&1 || suite_ok=0
+# the baseline runner is nextest (one process per test: registry::tests::test_default_registry is flaky under the threaded libtest runner)
+(cargo nextest run --workspace --no-fail-fast --offline && cargo test --workspace --doc --offline) >/tmp/seedlog-$P-$N-suite.txt 2>&1 || suite_ok=0
 plain_ok=1
 cargo check --offline --no-default-features >/dev/null 2>&1 || plain_ok=0
 git checkout -q -- .
-echo "seed $P-$N: demo_clean_pass=$clean_ok demo_seeded_fail=$seed_fail/$RUNS suite_pass_with_seed=$suite_ok plain_builds=$plain_ok"
+echo "seed $OUT: demo_clean_pass=$clean_ok demo_seeded_fail=$seed_fail/$RUNS suite_pass_with_seed=$suite_ok plain_builds=$plain_ok"
 if [ $clean_ok = 1 ] && [ $seed_fail -ge 1 ] && [ $suite_ok = 1 ]; then
-  D=/verif/seeded/$P-$N; mkdir -p $D
+  D=/verif/seeded/$OUT; mkdir -p $D
   cp SEED/seed$N.diff $D/patch.diff; cp SEED/demo$N.rs $D/demo.rs; cp SEED/note$N.md $D/note.md 2>/dev/null
   echo "{\"confirmed\": {\"demo_clean_pass\": true, \"demo_seeded_fail\": \"$seed_fail/$RUNS\", \"suite_pass_with_seed\": true, \"plain_builds\": $plain_ok}}" > $D/confirm.json
   echo "KEPT $D"
